@@ -1374,7 +1374,7 @@ func init() {
 			nGen := 1500
 			chunk := 24
 			if tier == "thorough" {
-				nGen = 24000
+				nGen = 60000
 				chunk = 250
 			}
 			nf := c18FixedCount()
